@@ -363,6 +363,23 @@ def holiday_args(draw):
                 auto_country=draw(flags), auto_timezone=draw(flags), op=op, time=start, end=end)
 
 
+BORDERS = ORACLE.ask(op="borders")["result"]
+
+
+@st.composite
+def border_args(draw):
+    """Two places a few metres apart on either side of a border between countries or time zones (found by the oracle by
+    bisection on the library's own lookup): everything inferred from `coords` must follow the exact coordinates, whatever
+    was constructed before in this process."""
+    pair = draw(st.sampled_from(BORDERS))
+    place = tuple(pair[draw(st.sampled_from(["a", "b"]))])
+    start = draw(st.datetimes(min_value=dt.datetime(2023, 1, 1), max_value=dt.datetime(2027, 1, 1)))
+    op = draw(st.sampled_from(["intervals", "intervals", "next_change", "state"]))
+    end = start + dt.timedelta(days=draw(st.integers(30, 250))) if op == "intervals" else None
+    return dict(expr=draw(st.sampled_from(HOLIDAY_EXPRS + ["sunrise-sunset", "10:00-18:00; PH off"])), timezone=None, country=None, coords=place,
+                auto_country=draw(st.sampled_from([None, True])), auto_timezone=draw(st.sampled_from([None, True, False])), op=op, time=start, end=end)
+
+
 @st.composite
 def mixed_args(draw):
     """Contexts without zone: start and end naive or aware independently (the result carries the zone of the input)."""
@@ -384,7 +401,7 @@ def run(tier):
 
     @seed(SEED)
     @settings(max_examples=n_examples, database=None, deadline=None, derandomize=False, suppress_health_check=list(HealthCheck), print_blob=False)
-    @given(args=st.one_of(general_args(), general_args(), general_args(), sun_args(), sun_args(), transition_args(), transition_args(), holiday_args(), mixed_args()))
+    @given(args=st.one_of(general_args(), general_args(), general_args(), sun_args(), sun_args(), transition_args(), transition_args(), holiday_args(), mixed_args(), border_args()))
     def prop(args):
         args = dict(args)
         if args["op"] != "intervals":
@@ -396,6 +413,8 @@ def run(tier):
             label("strategy_dst_transition")
         if args["expr"] in HOLIDAY_EXPRS:
             label("strategy_holidays_country_vs_coords")
+        if args["coords"] is not None and any(tuple(args["coords"]) in (tuple(b["a"]), tuple(b["b"])) for b in BORDERS):
+            label("strategy_places_on_both_sides_of_a_border")
         try:
             nontrivial = check_case(args)
         except BaseException as e:  # noqa: BLE001  (PanicException derives from BaseException)
